@@ -107,6 +107,7 @@ func (c *Cluster) Tick(n int) {
 		_ = c.rawUpdate(o)
 	}
 	c.VNow += n
+	c.advanceBackOffClock(d)
 }
 
 // ageUnits converts a stored instant into an age in whole units (-1 for the zero instant).
